@@ -212,11 +212,10 @@ def stream_configs(tier, tables):
     #     don't-care while valid = 0; e.g. an upstream Buffer keeps showing the last token)
     L.append(({"cls": "StreamEncoder", "n": 1, "idle": "any"}, _scfg("enc", 1, esyms[:4], 0, "any", 4)))
     # --- decoder
-    # (decoders with n >= 2 are covered in T-mode only: each lane has its own table memory and the
-    #  order in which Migen lowers several memories - hence the stepper's register order - is not
-    #  stable between the worker processes that exchange state vectors in G-mode)
     L.append(({"cls": "StreamDecoder", "n": 1, "idle": "any"},
               _scfg("dec", 1, [(w,) for w in codes[:4] + [0x3ff]], 1, "any", 4)))
+    L.append(({"cls": "StreamDecoder", "n": 2, "idle": "zero"},
+              _scfg("dec", 2, [(w,) for w in codes[:3]], 0, "zero", 4)))
     if tier == "thorough":
         L.append(({"cls": "StreamEncoder", "n": 1, "idle": "zero"}, _scfg("enc", 1, esyms, 1, "zero", 4)))
         L.append(({"cls": "StreamEncoder", "n": 2, "idle": "zero"}, _scfg("enc", 2, esyms[:4], 0, "zero", 4)))
@@ -224,6 +223,8 @@ def stream_configs(tier, tables):
         L.append(({"cls": "StreamEncoder", "n": 2, "idle": "any"}, _scfg("enc", 2, esyms[:3], 0, "any", 4)))
         L.append(({"cls": "StreamDecoder", "n": 1, "idle": "any"},
                   _scfg("dec", 1, [(w,) for w in codes + [0x3ff, 0x0f0]], 1, "any", 4)))
+        L.append(({"cls": "StreamDecoder", "n": 2, "idle": "any"},
+                  _scfg("dec", 2, [(w,) for w in codes[:4]], 1, "any", 4)))
     # the same DUT must not appear twice in one batch with the same python spec: tag them
     for i, (s, c) in enumerate(L):
         s["tag"] = i
